@@ -124,9 +124,10 @@ def _iter_unit(cls_mod, cls_name, lib_name, symmetric):
             # statement about the plain call: a preconditioner M, a shift, a callback-driven stop or a looser
             # tolerance changes what info == 0 means (scipy then tests the PRECONDITIONED residual), so the
             # wrapper may pass nothing but the start vector, the iteration cap and tolerances that are not looser
-            allowed = {"x0", "maxiter", "atol", "rtol", "restart"} if lib_name == "gmres" else {"x0", "maxiter", "rtol"}
+            # (a progress callback is an observer: it cannot change the vector returned unless it raises)
+            allowed = {"x0", "maxiter", "atol", "rtol", "tol", "restart", "callback", "callback_type"} if lib_name == "gmres" else {"x0", "maxiter", "rtol", "tol", "callback", "show"}
             u.ensure(set(kw) <= allowed, "iteration_called_only_with_keywords_the_assumed_library_contract_covers", desc=f"keywords {sorted(kw)}")
-            for tk, cap in (("atol", 1e-8), ("rtol", 1e-5)):
+            for tk, cap in (("atol", 1e-8), ("rtol", 1e-5), ("tol", 1e-5)):
                 if tk in kw:
                     tv = kw[tk]
                     u.ensure(tv <= cap if isinstance(tv, (int, float)) else ops._real(tv) <= ops._real(cap), f"{tk}_not_looser_than_the_assumed_contract")
